@@ -748,11 +748,16 @@ impl Stringify for Value {
                         _ => false,
                     }
                 }
-                fn starts_with_binding(expr: &Expression) -> bool {
+                // whether the text printed for the pieces starts with `{` (a binding, or a literal
+                // which starts with `{`); `None` if nothing is printed for them
+                fn starts_with_brace(expr: &Expression) -> Option<bool> {
                     match expr {
-                        Expression::ToStringWithoutUndefined { .. } => true,
-                        Expression::Plus { left, .. } => starts_with_binding(left),
-                        _ => false,
+                        Expression::ToStringWithoutUndefined { .. } => Some(true),
+                        Expression::LitStr { value, .. } => value.chars().next().map(|c| c == '{'),
+                        Expression::Plus { left, right, .. } => {
+                            starts_with_brace(left).or_else(|| starts_with_brace(right))
+                        }
+                        _ => Some(true),
                     }
                 }
                 fn split_expression<'s, W: FmtWrite>(
@@ -761,7 +766,7 @@ impl Stringify for Value {
                     start_location: &Range<Position>,
                     end_location: &Range<Position>,
                     is_whole_expr: bool,
-                    binding_follows: bool,
+                    brace_follows: bool,
                 ) -> FmtResult {
                     match expr {
                         // (a whitespace-only string literal which is the whole expression stays a
@@ -774,8 +779,8 @@ impl Stringify for Value {
                                     .is_empty()) =>
                         {
                             let mut text = escape_html_body(value).into_owned();
-                            if binding_follows && text.ends_with('{') {
-                                // `{` + `{{` would be read as `{{` + `{`
+                            if brace_follows && text.ends_with('{') {
+                                // `{` + `{` would be read as the start of a binding
                                 text.pop();
                                 text.push_str("&#123;");
                             }
@@ -803,7 +808,7 @@ impl Stringify for Value {
                                     start_location,
                                     location,
                                     false,
-                                    starts_with_binding(right),
+                                    starts_with_brace(right).unwrap_or(brace_follows),
                                 )?;
                                 split_expression(
                                     &right,
@@ -811,7 +816,7 @@ impl Stringify for Value {
                                     location,
                                     end_location,
                                     false,
-                                    binding_follows,
+                                    brace_follows,
                                 )?;
                                 return Ok(());
                             }
